@@ -106,6 +106,7 @@ class Gen:
                     c = self.chunk(known)
                 cs.append(c)
             out.append(cs)
+        self.kinds = [r.choice([0, 0, 1, 1, 2]) for _ in out]
         return out
 
     def schedule(self, streams):
@@ -231,12 +232,30 @@ def enc_table(t):
     return out
 
 
+_CLASSES = []
+
+
+def reader_classes(hy):
+    """plain HyReader, a user subclass, a subclass of that subclass (the docs invite subclassing hy.HyReader)"""
+    if not _CLASSES:
+        class HvReaderA(hy.HyReader):
+            "a user-defined reader"
+
+        class HvReaderB(HvReaderA):
+            "a reader derived from a user-defined reader"
+        _CLASSES.extend([hy.HyReader, HvReaderA, HvReaderB])
+    return _CLASSES
+
+
+CLASS_NAMES = ["HyReader", "subclass", "sub-subclass"]
+
+
 class Real:
     def __init__(self, hy):
         self.hy = hy
         self.n = 0
 
-    def run(self, streams, sched):
+    def run(self, streams, sched, kinds=None):
         hy = self.hy
         self.n += 1
         mods, readers, lazies, pend = [], [], [], []
@@ -247,7 +266,7 @@ class Real:
             sys.modules[nm] = m
             names.append(nm)
             mods.append(m)
-            rd = hy.HyReader()
+            rd = reader_classes(hy)[kinds[i] if kinds else 0]()
             readers.append(rd)
             try:
                 lazies.append(hy.read_many("\n".join(chunk_text(c) for c in cs), reader=rd))
@@ -335,7 +354,7 @@ class Alone:
         while self.todo:
             c = self.todo.pop(0)
             k = c[0]
-            if k in ("def", "req", "plain"):
+            if k in ("def", "req", "plain", "nest"):
                 self.pending.append(c)
                 return [1, i]
             uses = c[1] if k == "list" else [c[1]]
@@ -388,6 +407,8 @@ class Alone:
             return [4, i, 0]
         if k == "plain":
             return [4, i, 1, PLAIN + c[1]]
+        if k == "nest":
+            return [4, i, 0]
         return [4, i, len(c[1])] + list(c[1])
 
     def act(self, a):
@@ -485,17 +506,19 @@ def run(chk):
             streams = g.streams()
             style, sched = g.schedule(streams)
             exprs.append(coq_expr(streams, sched, g.nones))
-            obs = real.run(streams, sched)
-            cases.append((streams, sched, g.nones, style, obs))
-            judge(chk, hy, streams, sched, g.nones, style, obs)
+            obs = real.run(streams, sched, g.kinds)
+            cases.append((streams, sched, g.nones, style, obs, g.kinds))
+            judge(chk, hy, streams, sched, g.nones, style, obs, g.kinds)
             if k % 4 == 0:
                 file_mode(chk, hy, root, k, streams[0], g.nones)
         outs = vlib.coq_eval(["HyV.MacroNS.ReaderMacrosEncode"],
                              "Import HyV.Base.Text HyV.MacroNS.ReaderMacrosModel.\n", exprs, tag="c37", shard=60)
-        for (streams, sched, nones, style, obs), o in zip(cases, outs):
+        for (streams, sched, nones, style, obs, kinds), o in zip(cases, outs):
             m = mcm.nums(o)
             if m != obs[0]:
-                chk.disagree("ReaderMacrosModel.run vs real Lazy streams", describe(streams, sched), m, obs[0])
+                chk.disagree("ReaderMacrosModel.run vs real Lazy streams", describe(streams, sched, kinds), m, obs[0])
+        for k in range(n_cases // 4):
+            nested_case(chk, hy, k)
         if hy.HyReader._current_reader is not None:
             chk.fail("current-reader-leaked", {}, repr(hy.HyReader._current_reader), None, "")
     finally:
@@ -504,15 +527,121 @@ def run(chk):
         mcm.cleanup()
 
 
-def describe(streams, sched):
-    return {"streams": [[chunk_text(c) for c in cs] for cs in streams],
+def pipeline_events(hy, text, reader, mod, idx):
+    """read a form, evaluate it, read the next: the events of one stream"""
+    out = []
+    try:
+        lazy = hy.read_many(text, reader=reader)
+    except Exception as e:
+        return [[3, idx] if type(e).__name__ == "LexException" else [33, idx]]
+    while True:
+        with warnings.catch_warnings():
+            warnings.simplefilter("ignore")
+            try:
+                f = next(lazy)
+                out.append([1, idx])
+            except StopIteration:
+                out.append([2, idx])
+                return out
+            except hy.errors.HyLanguageError as e:
+                out.append([3, idx] if type(e).__name__ == "LexException" else [33, idx])
+                return out
+            value = isinstance(f, (hy.models.List, hy.models.String))
+            try:
+                v = hy.eval(f, module=mod)
+                if value:
+                    vs = [decode_val(x) for x in v] if isinstance(v, list) else [decode_val(v)]
+                    out.append([4, idx, len(vs)] + vs)
+                else:
+                    out.append([4, idx, 0])
+            except hy.errors.HyRequireError:
+                out.append([5, idx])
+                return out
+            except Exception as e:
+                out.append([55, idx, type(e).__name__])
+                return out
+
+
+def alone_pipeline(chunks, nones, idx):
+    al, out = Alone(chunks, nones), []
+    while True:
+        e = al.read(idx)
+        if e is None:
+            return out, False
+        out.append(e)
+        if e[0] in (2, 3):
+            return out, True
+        e2 = al.act(("eval", idx))
+        out.append(e2)
+        if e2[0] == 5:
+            return out, True
+
+
+def nested_case(chk, hy, k):
+    """an INNER stream (own reader, own module) is read and evaluated completely while a form of the OUTER stream is
+    being compiled (eval-when-compile), i.e. while the outer reader is the current reader; each stream must still
+    behave as if it ran alone: the inner one keeps its definitions, the outer one does not get them"""
+    r = chk.rng
+    g = Gen(r)
+    outer, inner = g.streams()[0], g.streams()[0]
+    inner_defs = sorted({c[1] for c in inner if c[0] == "def"})
+    pos = r.randrange(len(outer) + 1)
+    outer = outer[:pos] + [("nest",)] + outer[pos:]
+    if inner_defs and r.random() < 0.7:
+        outer.insert(r.randrange(pos + 1, len(outer) + 1), ("bare", r.choice(inner_defs)))
+    ko, ki = r.choice([0, 0, 1, 2]), r.choice([0, 1, 1, 2])
+    classes = reader_classes(hy)
+    mo, mi = types.ModuleType("hvn_o_%d" % k), types.ModuleType("hvn_i_%d" % k)
+    sys.modules[mo.__name__], sys.modules[mi.__name__] = mo, mi
+    inner_text = "\n".join(chunk_text(c) for c in inner)
+    inner_events = []
+
+    def run_inner():
+        inner_events.extend(pipeline_events(hy, inner_text, classes[ki](), mi, 1))
+    mo.__dict__["_hv_inner"] = run_inner
+    outer_text = "\n".join("(eval-when-compile (_hv_inner))" if c[0] == "nest" else chunk_text(c) for c in outer)
+    try:
+        got_outer = pipeline_events(hy, outer_text, classes[ko](), mo, 0)
+    finally:
+        sys.modules.pop(mo.__name__, None)
+        sys.modules.pop(mi.__name__, None)
+    inp = {"outer_reader": CLASS_NAMES[ko], "inner_reader": CLASS_NAMES[ki], "outer": outer_text.split("\n"),
+           "inner": inner_text.split("\n")}
+    how = ("outer: for form in hy.read_many(outer, reader=<outer class>()): hy.eval(form, module=O), where O._hv_inner runs "
+           "the same loop over `inner` with <inner class>() and module I; reader classes: HyReader, class A(hy.HyReader), "
+           "class B(A); static modules as props/c37.py:static_files()")
+    chk.count("nested:outer-%s/inner-%s" % (CLASS_NAMES[ko], CLASS_NAMES[ki]))
+    exp_outer, judged_o = alone_pipeline(outer, g.nones, 0)
+    exp_inner, judged_i = alone_pipeline(inner, g.nones, 1)
+    ran_inner = [4, 0, 0] in got_outer[:2 * (pos + 1)] or bool(inner_events)
+    ok = True
+    if got_outer[:len(exp_outer)] != exp_outer[:len(got_outer)] or (judged_o and got_outer != exp_outer):
+        ok = False
+        chk.fail("nested-outer-not-as-alone", inp, got_outer, exp_outer, how)
+    if inner_events and (inner_events[:len(exp_inner)] != exp_inner[:len(inner_events)] or (judged_i and inner_events != exp_inner)):
+        ok = False
+        chk.fail("nested-inner-not-as-alone", inp, inner_events, exp_inner, how)
+    if hy.HyReader._current_reader is not None or any(c.__dict__.get("_current_reader") is not None for c in classes[1:]):
+        chk.fail("current-reader-leaked", inp, "a current reader is still set after the streams ended", None, how)
+        for c in classes:
+            c._current_reader = None
+    chk.case("nested:" + repr(inp), nontrivial=bool(inner_events) and any(e[0] == 4 and e[2] > 0 for e in inner_events if len(e) > 2),
+             sample=inp if k % 61 == 5 else None)
+
+
+def describe(streams, sched, kinds=None):
+    return {"reader_classes": [CLASS_NAMES[k] for k in (kinds or [0] * len(streams))],
+            "streams": [[chunk_text(c) for c in cs] for cs in streams],
             "schedule": [a[0] + str(a[1]) + ((":" + chunk_text(a[2])) if a[0] == "detached" else "") for a in sched]}
 
 
-def judge(chk, hy, streams, sched, nones, style, obs):
+def judge(chk, hy, streams, sched, nones, style, obs, kinds=None):
     evs, per_stream, tabs = obs
-    inp = describe(streams, sched)
-    how = ("streams: hy.read_many(text, reader=hy.HyReader()) each with its own types.ModuleType in sys.modules; "
+    inp = describe(streams, sched, kinds)
+    for k in (kinds or []):
+        chk.count("reader-class:" + CLASS_NAMES[k])
+    how = ("streams: hy.read_many(text, reader=<reader class>()) (HyReader, class A(hy.HyReader), class B(A)) each with its "
+           "own types.ModuleType in sys.modules; "
            "readN = next(lazyN), evalN = hy.eval(oldest unevaluated form, module=modN), detachedN = hy.eval of the form "
            "with its .reader attribute deleted; static modules as props/c37.py:static_files()")
     chk.count("streams:%d" % len(streams))
